@@ -20,7 +20,7 @@
    pointers, consecutive heights, unique block ids).  Nothing is assumed about which contract
    events the blocks carry. *)
 From HostdBase Require Import Base.
-From HostdElements Require Import Model Proofs.
+From HostdElements Require Import Model Proofs ProofsTotal.
 
 (* every well-formed operation list run through the model's [step] ends in a [reach]able state *)
 Theorem c17_histories : forall l, wf_ops init [] l ->
@@ -59,6 +59,21 @@ Theorem c17_formation_reverted_element_dropped : forall s C hm, reach s C hm ->
   forall e, In e (celems s) -> exists c, In c C /\ ce_born e = b_idx c /\ formed_in (ce_cid e) c.
 Proof. exact contract_elements_formed_on_chain. Qed.
 Print Assumptions c17_formation_reverted_element_dropped.
+
+(* the update never panics or fails — in particular the revert order (revert contracts, delete the
+   reverted block's chain index element, only then refresh every remaining proof) never hands core
+   a leaf the reverted block created — for every history that obeys the contract lifecycle
+   ([lifecycle_ok]: a contract is formed once, revised/resolved only while active, at most one
+   event per contract and block; contracts are added before their formation is processed).
+   [lreach] is [reach] without resets, restricted to such histories. *)
+Theorem c17_update_never_fails : forall s C rs bs, lreach s C -> wf_batch C rs bs ->
+  lifecycle_ok (chain_after C rs bs) -> exists s', batch s rs bs = Ok s'.
+Proof. exact batch_never_fails. Qed.
+Print Assumptions c17_update_never_fails.
+
+Theorem c17_lifecycle_histories_are_histories : forall s C, lreach s C -> exists hm, reach s C hm.
+Proof. exact lreach_reach. Qed.
+Print Assumptions c17_lifecycle_histories_are_histories.
 
 (* ResetChainState empties both element tables *)
 Theorem c17_reset : forall s, celems (reset s) = [] /\ ielems (reset s) = [] /\ tip (reset s) = None.
